@@ -40,12 +40,12 @@ def scenarios(tier):
     return out
 
 
-def _files(W, tmp, t_first, uvals):
-    """grid + forcing file with frames at steps -1, 1, 2, 6 (relative to t_first); u depends on level and frame"""
+def _files(W, tmp, t_first, uvals, frames=None):
+    """grid + forcing file with frames at steps -1, 1, 3, 6 (relative to t_first); u depends on level and frame"""
     ones = [[1] * L for _ in range(M)]
     # sloping bottom: the level depths differ from cell to cell (a particle handed another cell's column gets other levels)
     gs = romsfile.grid_vars(L, M, N, h=[[60 + 10 * i + 7 * j for i in range(L)] for j in range(M)], mask=ones, pm=[[W.frac(1, 800)] * L for _ in range(M)], pn=[[W.frac(1, 800)] * L for _ in range(M)])
-    frames = [-1, 1, 2, 6]  # unevenly spaced
+    frames = frames or [-1, 1, 3, 6]  # unevenly spaced; steps 0 and 2 lie between frames
     u = [[[[uvals[(f, k)] for i in range(L - 1)] for j in range(M)] for k in range(N)] for f in range(len(frames))]
     v = [[[[0 for i in range(L)] for j in range(M - 1)] for k in range(N)] for f in range(len(frames))]
     temp = [[[[uvals[(f, k)] * 10 for i in range(L)] for j in range(M)] for k in range(N)] for f in range(len(frames))]
